@@ -10,7 +10,7 @@ import json
 import os
 import random
 
-from lib import common, rtl, xgen, xref, xrun
+from lib import asmprog, common, rtl, xgen, xref, xrun
 from lib.common import Verdict
 
 OPC = ["LDAM", "LDBM", "STAM", "LDAC", "LDBC", "LDAP", "LDAI", "LDBI", "STAI", "BR", "BRZ", "BRN", "0xC", "OPR", "PFIX", "NFIX"]
@@ -18,6 +18,7 @@ OPC = ["LDAM", "LDBM", "STAM", "LDAC", "LDBC", "LDAP", "LDAI", "LDBI", "STAI", "
 
 def build():
     xrun.build()
+    common.build_cxx("h_asm", ["h_asm.cpp", "repo:hex.cpp"])
     return rtl.build_h_rtl()
 
 
@@ -37,6 +38,16 @@ def images(n, seed, d):
         r = res[str(i)]
         if r["status"] == "ok" and r["out"] and r["out"].get("ok"):
             p = os.path.join(d, "img%d.bin" % i)
+            open(p, "wb").write(common.unhex(r["out"]["file"]))
+            paths.append(p)
+    # hand-written-style assembly images as well
+    hasm = common.build_cxx("h_asm", ["h_asm.cpp", "repo:hex.cpp"])
+    acases = [(i, {"src": asmprog.program(random.Random(rnd.randrange(1 << 62)))[0]}) for i in range(max(8, n // 2))]
+    ares = common.run_harness(hasm, acases, args=["cases"], tag="imga")
+    for i, _ in acases:
+        r = ares[str(i)]
+        if r["status"] == "ok" and r["out"] and r["out"].get("ok"):
+            p = os.path.join(d, "asm%d.bin" % i)
             open(p, "wb").write(common.unhex(r["out"]["file"]))
             paths.append(p)
     return paths
@@ -68,7 +79,7 @@ def run(tier, replay=None):
         rr = w % 3
         mine = imgs[w::W]
         argsets.append(["c16", seed * 1000 + w, ngrid // W + 1, nseq // W + 1, rr, "@OUT"] + mine)
-    res = common.run_selfgen(exe, argsets, tag="c16", timeout=4 * 3600)
+    res = common.run_selfgen(exe, argsets, tag="c16", timeout=900 if tier == "quick" else 4 * 3600)
     table = [[0, 0, 0] for _ in range(16)]
     seen = [0] * 256
     tot = {}
